@@ -15,3 +15,5 @@ def run(ctx):
         ic.rule_undo_bytes_value(ctx, cfg, r3)
         r5 = ctx.rule("R06.4" + sfx, "zlib trailer: bytes are counted one by one across calls (resuming inside the trailer takes exactly the missing bytes)", floor=4, config=cfg)
         ic.rule_counted_bytes(ctx, cfg, r5)
+        r6 = ctx.rule("R06.5" + sfx, "bytes handed back on exit leave no bits behind (saved bit buffer masked to the lowered num_bits)", floor=4, config=cfg)
+        ic.rule_handback_mask(ctx, cfg, r6)
